@@ -10,3 +10,8 @@ def run(ctx):
     svcommon.run(ctx, "C09")
     if not ctx.replay:
         killtie.run_property(ctx)
+
+
+def run(ctx, _inner=run):     # + T5-race (lib/racetie.py): data-race freedom, the assumption under every interleaving model; also re-runs its replay files
+    from lib import racetie
+    return racetie.stage(ctx, _inner, ["server", "server/session", "server/session/store"])
